@@ -562,13 +562,16 @@ class RootCwdStream(CmdStream):
             "<root>/vendor/x/LICENSES, the LICENSES/ of an unrelated directory outside, an unrelated directory} x {--root given "
             "(relative, absolute, ./x/), not given} x {the project is a Git repository, no VCS} x {`download <ids>`, `download "
             "--all` followed by the real lint with the same --root} with LICENSES/ absent / empty / partly filled and every network "
-            "outcome: the same whole-tree snapshot oracle (text only in LICENSES/<id>.txt under the project root, nothing else "
+            "outcome, plus --root naming a directory that is itself called LICENSES from four other working directories: the same whole-tree snapshot oracle (text only in LICENSES/<id>.txt under the project root, nothing else "
             "created anywhere -- in particular not in the working directory's LICENSES/ --, --all closes the gap) and the same "
             "model (Env cwd / root / vcsNone); quick: every cell twice, thorough: 12 times")
 
-    def gen_cell(self, rng, cwd, rootgiven, git, want_all):
+    def gen_cell(self, rng, cwd, rootgiven, git, want_all, rootdir="proj"):
         inside = cwd == "proj" or cwd.startswith("proj/")
-        if rootgiven:
+        if rootgiven and rootdir != "proj":
+            # a project whose own directory is called LICENSES (never a repository here), named with --root from another directory
+            root, novcs, git = rootdir, True, False
+        elif rootgiven:
             root, novcs = "proj", not git
         elif git and inside:
             root, novcs = "proj", False
@@ -598,6 +601,11 @@ class RootCwdStream(CmdStream):
         else:
             ids = [rng.choice(POOL) for _ in range(rng.choice([1, 2, 3]))]
             targets = sorted({strip_plus(i) for i in ids})
+        if rootdir != "proj":
+            if want_all:
+                used = {rootdir + "/tagged.py": sorted({i for v in used.values() for i in v})}
+            else:
+                tree.append([rootdir + "/tagged.py", "f", tagged(["MIT"])])
         if state == "present":
             for t in targets:
                 if rng.random() < 0.2:
@@ -613,7 +621,7 @@ class RootCwdStream(CmdStream):
         case = {"tree": tree, "git": git, "novcs": novcs, "cwd": cwd, "root": root, "licdir": licdir, "ids": ids, "all": want_all,
                 "output": None, "source": source, "net": net, "used": used}
         if rootgiven:
-            case.update(rootarg="proj", rootspell=rng.choice(["rel", "rel", "abs", "slash"]))
+            case.update(rootarg=rootdir, rootspell=rng.choice(["rel", "rel", "abs", "slash"]))
         return case
 
     def cases(self, tier, rng):
@@ -623,6 +631,10 @@ class RootCwdStream(CmdStream):
                     for git in (True, False):
                         for want_all in (False, True):
                             yield self.gen_cell(rng, cwd, rootgiven, git, want_all)
+            # --root names a directory that is itself called LICENSES, from every other working directory
+            for cwd in ["elsewhere", "proj", "proj/LICENSES", "outside"]:
+                for want_all in (False, True):
+                    yield self.gen_cell(rng, cwd, True, False, want_all, rootdir="outside/LICENSES")
 
 
 class TransferStream(CmdStream):
